@@ -409,6 +409,10 @@ def rewrite(text, keep_attrs=False, keep_pub=False, name="<item>", std_derives=F
                     cut.append((sig[i][1], sig[end][2]))
                     i = end + 1
                     continue
+                if re.match(r"cfg\(\s*unix\s*\)$", an) or re.match(r'cfg\(\s*target_family\s*=\s*"unix"\s*\)$', an):
+                    # kept verbatim: the verification host is the (unix) platform the default build runs on
+                    i = close + 1
+                    continue
                 raise Unsupported(f"{name}: cfg attribute outside R2: #[{an}]")
             if std_derives and aname == "derive":
                 names = [x.strip() for x in an[an.index("(") + 1:an.rindex(")")].split(",") if x.strip()]
